@@ -90,7 +90,13 @@ def handle (l : Line) : Option (Except String String) :=
   -- active connection of the server (HTTP), so `stopFinish` is not enabled (`C16_udp_stop_leaves_nothing`,
   -- `C16_http_stop_leaves_nothing`); after the handler and its post-response hook it is, and nothing is left
   | "life.handler_gate" => some (pure "entered=1 stop_pending_while_handler_runs=1 answered=1 stopped=1 after_done_at_stop=1 goroutines_left=0\thandlergate")
-  | "life.metrics_inflight" => some (pure "request_running_at_stop=1 stopped=1 request_ok=1 stop_completed_before_request=0\tmetricsinflight")
+  -- Stop waits for a request in flight (`Shutdown`), but no longer than its deadline of 5 s (D37): a longer one is cut
+  | "life.metrics_inflight" => some (match l.nat "secs" with
+      | .ok secs => if secs > 4 then pure "request_running_at_stop=1 stopped=1 request_cut=1 handler_gone=1\tmetricsinflight-cut"
+                    else pure "request_running_at_stop=1 stopped=1 request_ok=1 stop_completed_before_request=0\tmetricsinflight"
+      | .error e => .error e)
+  -- `C16_metrics_shutdown_returns`: whatever the client does, Stop completes; nothing of the server is left
+  | "life.metrics_stalled" => some (pure "stop_terminated=1 port_free=1 conn_goroutines_left=0\tmetricsstalled")
   | "life.udp_race" => some (do
       let n ← l.nat "n"
       pure (s!"serve_goroutine_gone_at_stop={n}/{n} stop_pending=0\tudprace"))
